@@ -518,13 +518,6 @@ Proof.
   rewrite (ml_remove_in w known old v F); [reflexivity|]. apply (f_two_ended w known F). exact E.
 Qed.
 
-Lemma ml_insert_eq w known ir i v :
-  Forest w known ->
-  ml_insert w ir i v =
-  (attach (pre_detach w v) ir v
-     (insert_at (clamp_insert i (length (kids (pre_detach w v) ir))) v (kids (pre_detach w v) ir)), pre_flag w v).
-Proof. intro F. unfold ml_insert. rewrite (ml_add_hook_eq w known ir v F). reflexivity. Qed.
-
 Lemma pre_detach_inv w known v :
   Forest w known -> CacheInv w -> has w v = true -> kindof w v = KMod ->
   Forest (pre_detach w v) known /\ CacheInv (pre_detach w v) /\ pre_flag w v = true /\
@@ -540,27 +533,6 @@ Proof.
     + intro x. apply has_detach. exact Hv.
     + intro x. apply kindof_detach.
   - refine (conj F (conj C (conj eq_refl (conj E (conj _ _))))); intro x; reflexivity.
-Qed.
-
-Lemma insert_inv w known ir i v :
-  Forest w known -> CacheInv w -> is_k w ir KIR = true -> is_k w v KMod = true ->
-  Forest (fst (ml_insert w ir i v)) known /\ CacheInv (fst (ml_insert w ir i v)) /\ snd (ml_insert w ir i v) = true.
-Proof.
-  intros F C Hir Hv. apply is_k_spec in Hir. destruct Hir as [Hir Kir]. apply is_k_spec in Hv. destruct Hv as [Hv Kv].
-  rewrite (ml_insert_eq w known ir i v F). cbn [fst snd].
-  destruct (pre_detach_inv w known v F C Hv Kv) as [F1 [C1 [Hf [Pv [Hh Hk]]]]].
-  assert (Hnin : ~ In v (kids (pre_detach w v) ir)).
-  { intro H. apply (f_two_ended _ known F1) in H. congruence. }
-  destruct (attach_inv (pre_detach w v) known ir v
-              (insert_at (clamp_insert i (length (kids (pre_detach w v) ir))) v (kids (pre_detach w v) ir))) as [F2 C2];
-    try assumption.
-  - rewrite Hh. exact Hir.
-  - rewrite Hk. exact Kir.
-  - rewrite Hh. exact Hv.
-  - rewrite Hk. exact Kv.
-  - apply NoDup_insert_at; [apply (f_nodup _ known F1)|exact Hnin].
-  - intro x. apply In_insert_at.
-  - auto.
 Qed.
 
 Lemma flagged_true (r : world * bool) : snd r = true -> flagged r = Ok (fst r).
@@ -624,29 +596,12 @@ Proof.
   apply (good_ok w known _ (new_world w n k u a s f nm p)); [apply step_new|exact F'|exact C'].
 Qed.
 
-(* ---- insert / append ---- *)
+(* ---- insert / append (good_insert / good_append / good_setparent_mod / good_extend: after assign_inv, below --
+   insert(i, v) is the slice assignment l[k:k] = [v]) ---- *)
 Lemma step_insert w ir i v : step w (OModInsert ir i v) = flagged (ml_insert w ir i v).
 Proof. reflexivity. Qed.
 Lemma step_append w ir v : step w (OModAppend ir v) = flagged (ml_insert w ir (Z.of_nat (length (kids w ir))) v).
 Proof. reflexivity. Qed.
-
-Lemma good_insert w known ir i v :
-  Forest w known -> CacheInv w -> op_okb w known (OModInsert ir i v) = true -> Good w known (OModInsert ir i v).
-Proof.
-  intros F C G. cbn [op_okb] in G. apply andb_true_iff in G. destruct G as [G1 G2].
-  destruct (insert_inv w known ir i v F C G1 G2) as [F' [C' Hf]].
-  apply (good_ok w known _ (fst (ml_insert w ir i v))); [|exact F'|exact C'].
-  rewrite step_insert. apply flagged_true. exact Hf.
-Qed.
-
-Lemma good_append w known ir v :
-  Forest w known -> CacheInv w -> op_okb w known (OModAppend ir v) = true -> Good w known (OModAppend ir v).
-Proof.
-  intros F C G. cbn [op_okb] in G. apply andb_true_iff in G. destruct G as [G1 G2].
-  destruct (insert_inv w known ir (Z.of_nat (length (kids w ir))) v F C G1 G2) as [F' [C' Hf]].
-  apply (good_ok w known _ (fst (ml_insert w ir (Z.of_nat (length (kids w ir))) v))); [|exact F'|exact C'].
-  rewrite step_append. apply flagged_true. exact Hf.
-Qed.
 
 (* ---- remove / pop / del item ---- *)
 Lemma step_remove w ir v : step w (OModRemove ir v) = (do r <- ml_remove w ir v; flagged r).
@@ -771,23 +726,6 @@ Lemma step_setparent_mod w known c p :
 Proof.
   intros F C Hc Kc. cbn [step]. unfold do_setparent. rewrite Kc.
   rewrite (setparent_mod_first w known c F C Hc Kc). reflexivity.
-Qed.
-
-Lemma good_setparent_mod w known c p :
-  Forest w known -> CacheInv w -> op_okb w known (OSetParent c p) = true -> kindof w c = KMod -> Good w known (OSetParent c p).
-Proof.
-  intros F C G Kc. cbn [op_okb] in G. apply andb_true_iff in G. destruct G as [G Gp].
-  apply andb_true_iff in G. destruct G as [Hc _].
-  destruct (pre_detach_inv w known c F C Hc Kc) as [F1 [C1 [_ [_ [Hh Hk]]]]].
-  pose proof (step_setparent_mod w known c p F C Hc Kc) as Hs.
-  destruct p as [ir|].
-  - rewrite Kc in Gp. cbn [parent_kind] in Gp. apply andb_true_iff in Gp. destruct Gp as [Hq Kq]. apply kind_eqb_eq in Kq.
-    assert (G1 : is_k (pre_detach w c) ir KIR = true) by (apply is_k_spec; rewrite Hh, Hk; auto).
-    assert (G2 : is_k (pre_detach w c) c KMod = true) by (apply is_k_spec; rewrite Hh, Hk; auto).
-    destruct (insert_inv (pre_detach w c) known ir (Z.of_nat (length (kids (pre_detach w c) ir))) c F1 C1 G1 G2) as [F' [C' Hf]].
-    apply (good_ok w known _ (fst (ml_append (pre_detach w c) ir c))); [|exact F'|exact C'].
-    rewrite Hs. apply flagged_true. exact Hf.
-  - apply (good_ok w known _ (pre_detach w c)); [exact Hs|exact F1|exact C1].
 Qed.
 
 (* ================================================================== *)
@@ -1042,50 +980,6 @@ Proof.
         refine (conj F2 (conj C2 (conj _ _))).
         -- rewrite Hf1, Hf2. reflexivity.
         -- intros x k. rewrite Hk2. apply Hk1.
-Qed.
-
-(* is_k through a full insert *)
-Lemma insert_is_k w known ir i v :
-  Forest w known -> CacheInv w -> is_k w v KMod = true ->
-  forall x k, is_k (fst (ml_insert w ir i v)) x k = is_k w x k.
-Proof.
-  intros F C Hv x k. apply is_k_spec in Hv. destruct Hv as [Hv Kv].
-  rewrite (ml_insert_eq w known ir i v F). cbn [fst].
-  destruct (pre_detach_inv w known v F C Hv Kv) as [_ [_ [_ [_ [Hh Hk]]]]].
-  unfold is_k. rewrite has_attach by (rewrite Hh; exact Hv). rewrite kindof_attach, Hh, Hk. reflexivity.
-Qed.
-
-(* ---- extend ---- *)
-Lemma extend_fold known ir vs : forall w,
-  Forest w known -> CacheInv w -> is_k w ir KIR = true -> (forall v, In v vs -> is_k w v KMod = true) ->
-  Forest (fst (fold_ok (fun w v => ml_append w ir v) vs w)) known /\
-  CacheInv (fst (fold_ok (fun w v => ml_append w ir v) vs w)) /\
-  snd (fold_ok (fun w v => ml_append w ir v) vs w) = true.
-Proof.
-  induction vs as [|v vs IH]; intros w F C G Gv.
-  - rewrite fold_ok_nil. cbn [fst snd]. auto.
-  - rewrite fold_ok_cons. cbn [fst snd].
-    assert (Ha : ml_append w ir v = ml_insert w ir (Z.of_nat (length (kids w ir))) v) by reflexivity. rewrite Ha.
-    assert (Hv : is_k w v KMod = true) by (apply Gv; left; reflexivity).
-    destruct (insert_inv w known ir (Z.of_nat (length (kids w ir))) v F C G Hv) as [F1 [C1 Hf1]].
-    pose proof (insert_is_k w known ir (Z.of_nat (length (kids w ir))) v F C Hv) as Hk.
-    destruct (IH (fst (ml_insert w ir (Z.of_nat (length (kids w ir))) v)) F1 C1) as [F2 [C2 Hf2]].
-    + rewrite Hk. exact G.
-    + intros x Hx. rewrite Hk. apply Gv. right. exact Hx.
-    + refine (conj F2 (conj C2 _)). rewrite Hf1. exact Hf2.
-Qed.
-
-Lemma step_extend w ir vs : step w (OModExtend ir vs) = flagged (fold_ok (fun w v => ml_append w ir v) vs w).
-Proof. reflexivity. Qed.
-
-Lemma good_extend w known ir vs :
-  Forest w known -> CacheInv w -> op_okb w known (OModExtend ir vs) = true -> Good w known (OModExtend ir vs).
-Proof.
-  intros F C G. cbn [op_okb] in G. apply andb_true_iff in G. destruct G as [G1 G2].
-  rewrite forallb_forall in G2.
-  destruct (extend_fold known ir vs w F C G1 G2) as [F' [C' Hf]].
-  apply (good_ok w known _ (fst (fold_ok (fun w v => ml_append w ir v) vs w))); [|exact F'|exact C'].
-  rewrite step_extend. apply flagged_true. exact Hf.
 Qed.
 
 (* ---- batches of removals ---- *)
@@ -1354,6 +1248,128 @@ Proof.
   - eapply In_skipn_l. exact H.
 Qed.
 
+
+(* ---- insert / append / extend: insert(i, v) is the slice assignment l[k:k] = [v] ---- *)
+
+Lemma is_k_with_kids w p L x k : is_k (with_kids w p L) x k = is_k w x k.
+Proof. reflexivity. Qed.
+
+(* is_k through an assignment *)
+Lemma assign_is_k w known ir new :
+  Forest w known -> CacheInv w -> is_k w ir KIR = true -> NoDup new ->
+  (forall v, In v new -> ~ In v (kids w ir) -> is_k w v KMod = true) ->
+  forall x k, is_k (fst (ml_assign w ir new)) x k = is_k w x k.
+Proof.
+  intros F C G Hnd Gv x k. rewrite ml_assign_eq. cbn [fst].
+  destruct (assign_setup w known ir new F C G Hnd Gv) as [F1 [C1 [_ [G1 [Gv1 [Hnden [Hnin _]]]]]]].
+  cbv zeta in F1, C1, G1, Gv1, Hnden, Hnin.
+  destruct (add_hooks_fold known ir _ _ _ [] F1 C1 G1 Gv1 Hnden Hnin) as [_ [_ [_ Hk2]]].
+  rewrite is_k_with_kids, Hk2.
+  destruct (remove_batch w known ir (leavers (kids w ir) new) F C G) as [_ [_ [_ Hk1]]].
+  - apply NoDup_filter. apply (f_nodup w known F).
+  - intros v Hv. unfold leavers in Hv. apply (proj1 (In_filter_notmem _ _ _)) in Hv. apply Hv.
+  - apply Hk1.
+Qed.
+
+Lemma insert_values_ok w ir k v :
+  is_k w v KMod = true ->
+  forall x, In x (assign_slice (kids w ir) k k [v]) -> ~ In x (kids w ir) -> is_k w x KMod = true.
+Proof.
+  intros Hv x Hx Hn. pose proof (assign_slice_new_is_value _ _ _ _ _ Hx Hn) as Hi.
+  destruct Hi as [E|[]]. subst x. exact Hv.
+Qed.
+
+Lemma insert_inv w known ir i v :
+  Forest w known -> CacheInv w -> is_k w ir KIR = true -> is_k w v KMod = true ->
+  Forest (fst (ml_insert w ir i v)) known /\ CacheInv (fst (ml_insert w ir i v)) /\ snd (ml_insert w ir i v) = true.
+Proof.
+  intros F C Hir Hv. unfold ml_insert. cbv zeta.
+  apply (assign_inv w known ir _ F C Hir).
+  - apply NoDup_assign_slice; [apply le_n|apply (f_nodup w known F)].
+  - apply insert_values_ok. exact Hv.
+Qed.
+
+(* is_k through a full insert *)
+Lemma insert_is_k w known ir i v :
+  Forest w known -> CacheInv w -> is_k w ir KIR = true -> is_k w v KMod = true ->
+  forall x k, is_k (fst (ml_insert w ir i v)) x k = is_k w x k.
+Proof.
+  intros F C Hir Hv. unfold ml_insert. cbv zeta.
+  apply (assign_is_k w known ir _ F C Hir).
+  - apply NoDup_assign_slice; [apply le_n|apply (f_nodup w known F)].
+  - apply insert_values_ok. exact Hv.
+Qed.
+
+Lemma good_insert w known ir i v :
+  Forest w known -> CacheInv w -> op_okb w known (OModInsert ir i v) = true -> Good w known (OModInsert ir i v).
+Proof.
+  intros F C G. cbn [op_okb] in G. apply andb_true_iff in G. destruct G as [G1 G2].
+  destruct (insert_inv w known ir i v F C G1 G2) as [F' [C' Hf]].
+  apply (good_ok w known _ (fst (ml_insert w ir i v))); [|exact F'|exact C'].
+  rewrite step_insert. apply flagged_true. exact Hf.
+Qed.
+
+Lemma good_append w known ir v :
+  Forest w known -> CacheInv w -> op_okb w known (OModAppend ir v) = true -> Good w known (OModAppend ir v).
+Proof.
+  intros F C G. cbn [op_okb] in G. apply andb_true_iff in G. destruct G as [G1 G2].
+  destruct (insert_inv w known ir (Z.of_nat (length (kids w ir))) v F C G1 G2) as [F' [C' Hf]].
+  apply (good_ok w known _ (fst (ml_insert w ir (Z.of_nat (length (kids w ir))) v))); [|exact F'|exact C'].
+  rewrite step_append. apply flagged_true. exact Hf.
+Qed.
+
+(* ---- the ir setter of a module (the append half) ---- *)
+Lemma good_setparent_mod w known c p :
+  Forest w known -> CacheInv w -> op_okb w known (OSetParent c p) = true -> kindof w c = KMod -> Good w known (OSetParent c p).
+Proof.
+  intros F C G Kc. cbn [op_okb] in G. apply andb_true_iff in G. destruct G as [G Gp].
+  apply andb_true_iff in G. destruct G as [Hc _].
+  destruct (pre_detach_inv w known c F C Hc Kc) as [F1 [C1 [_ [_ [Hh Hk]]]]].
+  pose proof (step_setparent_mod w known c p F C Hc Kc) as Hs.
+  destruct p as [ir|].
+  - rewrite Kc in Gp. cbn [parent_kind] in Gp. apply andb_true_iff in Gp. destruct Gp as [Hq Kq]. apply kind_eqb_eq in Kq.
+    assert (G1 : is_k (pre_detach w c) ir KIR = true) by (apply is_k_spec; rewrite Hh, Hk; auto).
+    assert (G2 : is_k (pre_detach w c) c KMod = true) by (apply is_k_spec; rewrite Hh, Hk; auto).
+    destruct (insert_inv (pre_detach w c) known ir (Z.of_nat (length (kids (pre_detach w c) ir))) c F1 C1 G1 G2) as [F' [C' Hf]].
+    apply (good_ok w known _ (fst (ml_append (pre_detach w c) ir c))); [|exact F'|exact C'].
+    rewrite Hs. apply flagged_true. exact Hf.
+  - apply (good_ok w known _ (pre_detach w c)); [exact Hs|exact F1|exact C1].
+Qed.
+
+(* ---- extend ---- *)
+Lemma extend_fold known ir vs : forall w,
+  Forest w known -> CacheInv w -> is_k w ir KIR = true -> (forall v, In v vs -> is_k w v KMod = true) ->
+  Forest (fst (fold_ok (fun w v => ml_append w ir v) vs w)) known /\
+  CacheInv (fst (fold_ok (fun w v => ml_append w ir v) vs w)) /\
+  snd (fold_ok (fun w v => ml_append w ir v) vs w) = true.
+Proof.
+  induction vs as [|v vs IH]; intros w F C G Gv.
+  - rewrite fold_ok_nil. cbn [fst snd]. auto.
+  - rewrite fold_ok_cons. cbn [fst snd].
+    assert (Ha : ml_append w ir v = ml_insert w ir (Z.of_nat (length (kids w ir))) v) by reflexivity. rewrite Ha.
+    assert (Hv : is_k w v KMod = true) by (apply Gv; left; reflexivity).
+    destruct (insert_inv w known ir (Z.of_nat (length (kids w ir))) v F C G Hv) as [F1 [C1 Hf1]].
+    pose proof (insert_is_k w known ir (Z.of_nat (length (kids w ir))) v F C G Hv) as Hk.
+    destruct (IH (fst (ml_insert w ir (Z.of_nat (length (kids w ir))) v)) F1 C1) as [F2 [C2 Hf2]].
+    + rewrite Hk. exact G.
+    + intros x Hx. rewrite Hk. apply Gv. right. exact Hx.
+    + refine (conj F2 (conj C2 _)). rewrite Hf1. exact Hf2.
+Qed.
+
+Lemma step_extend w ir vs : step w (OModExtend ir vs) = flagged (fold_ok (fun w v => ml_append w ir v) vs w).
+Proof. reflexivity. Qed.
+
+Lemma good_extend w known ir vs :
+  Forest w known -> CacheInv w -> op_okb w known (OModExtend ir vs) = true -> Good w known (OModExtend ir vs).
+Proof.
+  intros F C G. cbn [op_okb] in G. apply andb_true_iff in G. destruct G as [G1 G2].
+  rewrite forallb_forall in G2.
+  destruct (extend_fold known ir vs w F C G1 G2) as [F' [C' Hf]].
+  apply (good_ok w known _ (fst (fold_ok (fun w v => ml_append w ir v) vs w))); [|exact F'|exact C'].
+  rewrite step_extend. apply flagged_true. exact Hf.
+Qed.
+
+(* ---- set item ---- *)
 Lemma good_setitem w known ir i v :
   Forest w known -> CacheInv w -> op_okb w known (OModSetItem ir i v) = true -> Good w known (OModSetItem ir i v).
 Proof.
@@ -1845,59 +1861,7 @@ Proof. unfold clamp_insert. destruct (Z.ltb_spec i 0); lia. Qed.
 Lemma clamp_insert_big i len : Z.of_nat len <= i -> clamp_insert i len = len.
 Proof. intro H. unfold clamp_insert. destruct (Z.ltb_spec i 0); lia. Qed.
 
-Theorem insert_effect w known ir i v :
-  Forest w known -> CacheInv w -> op_okb w known (OModInsert ir i v) = true ->
-  let l := remove_id v (kids w ir) in
-  exists w', step w (OModInsert ir i v) = Ok w' /\
-    kids w' ir = insert_at (clamp_insert i (length l)) v l /\
-    (forall x, x <> ir -> kids w' x = remove_id v (kids w x)) /\
-    (forall x, nodes w' x = if x =? v then Some (with_par (getn w v) (Some ir)) else nodes w x) /\
-    par w' v = Some ir.
-Proof.
-  intros F C G l. cbn [op_okb] in G. apply andb_true_iff in G. destruct G as [G1 G2].
-  destruct (insert_inv w known ir i v F C G1 G2) as [_ [_ Hf]].
-  exists (fst (ml_insert w ir i v)). split; [rewrite step_insert; apply flagged_true; exact Hf|].
-  rewrite (ml_insert_eq w known ir i v F). cbn [fst].
-  rewrite kids_attach_same, (kids_pre_detach w known v F ir). fold l.
-  split; [reflexivity|]. split; [|split].
-  - intros x Hx. rewrite kids_attach_other by exact Hx. apply (kids_pre_detach w known v F).
-  - intro x. rewrite nodes_attach. destruct (Z.eqb_spec x v) as [E|E].
-    + rewrite with_par_getn_pre_detach. reflexivity.
-    + apply nodes_pre_detach_other. exact E.
-  - apply par_attach_same.
-Qed.
-
-Corollary insert_effect_fresh w known ir i v :
-  Forest w known -> CacheInv w -> op_okb w known (OModInsert ir i v) = true -> ~ In v (kids w ir) ->
-  kids (step' w (OModInsert ir i v)) ir = insert_at (clamp_insert i (length (kids w ir))) v (kids w ir).
-Proof.
-  intros F C G H. destruct (insert_effect w known ir i v F C G) as [w' [Hs [Hk _]]].
-  rewrite (step'_ok _ _ _ Hs), Hk, (remove_id_notin v _ H). reflexivity.
-Qed.
-
-(* ---------- append: len is read before the hook, insert_at clamps ---------- *)
-Theorem append_effect w known ir v :
-  Forest w known -> CacheInv w -> op_okb w known (OModAppend ir v) = true ->
-  exists w', step w (OModAppend ir v) = Ok w' /\
-    kids w' ir = remove_id v (kids w ir) ++ [v] /\
-    (forall x, x <> ir -> kids w' x = remove_id v (kids w x)) /\
-    (forall x, nodes w' x = if x =? v then Some (with_par (getn w v) (Some ir)) else nodes w x) /\
-    par w' v = Some ir.
-Proof.
-  intros F C G.
-  destruct (insert_effect w known ir (Z.of_nat (length (kids w ir))) v F C G) as [w' [Hs [Hk H]]].
-  exists w'. split; [exact Hs|]. split; [|exact H]. rewrite Hk.
-  apply insert_at_ge. rewrite clamp_insert_big; [lia|].
-  apply inj_le. unfold remove_id. apply filter_length_le'.
-Qed.
-
-Corollary append_effect_fresh w known ir v :
-  Forest w known -> CacheInv w -> op_okb w known (OModAppend ir v) = true -> ~ In v (kids w ir) ->
-  kids (step' w (OModAppend ir v)) ir = kids w ir ++ [v].
-Proof.
-  intros F C G H. destruct (append_effect w known ir v F C G) as [w' [Hs [Hk _]]].
-  rewrite (step'_ok _ _ _ Hs), Hk, (remove_id_notin v _ H). reflexivity.
-Qed.
+(* (insert / append / extend: after assign_closed, below) *)
 
 (* ---------- what detach does (remove / pop / del item / ir setter to None) ---------- *)
 Lemma detach_effects w known ir v :
@@ -2023,31 +1987,6 @@ Proof.
   apply (pre_detach_inv w known c F C Hc Kc).
 Qed.
 
-Theorem setparent_some_effect w known c ir :
-  Forest w known -> CacheInv w -> op_okb w known (OSetParent c (Some ir)) = true -> kindof w c = KMod ->
-  exists w', step w (OSetParent c (Some ir)) = Ok w' /\
-    kids w' ir = remove_id c (kids w ir) ++ [c] /\
-    (forall x, x <> ir -> kids w' x = remove_id c (kids w x)) /\
-    (forall x, nodes w' x = if x =? c then Some (with_par (getn w c) (Some ir)) else nodes w x) /\
-    par w' c = Some ir.
-Proof.
-  intros F C G Kc. pose proof G as G0. cbn [op_okb] in G. apply andb_true_iff in G. destruct G as [G Gp].
-  apply andb_true_iff in G. destruct G as [Hc _].
-  destruct (pre_detach_inv w known c F C Hc Kc) as [F1 [C1 [_ [_ [Hh Hk]]]]].
-  rewrite Kc in Gp. cbn [parent_kind] in Gp. apply andb_true_iff in Gp. destruct Gp as [Hq Kq]. apply kind_eqb_eq in Kq.
-  assert (G1 : op_okb (pre_detach w c) known (OModAppend ir c) = true).
-  { cbn [op_okb]. apply andb_true_iff. split; apply is_k_spec; rewrite Hh, Hk; auto. }
-  destruct (append_effect (pre_detach w c) known ir c F1 C1 G1) as [w' [Hs [H1 [H2 [H3 H4]]]]].
-  exists w'. split.
-  - rewrite (step_setparent_mod w known c (Some ir) F C Hc Kc). exact Hs.
-  - assert (Hrr : forall x, remove_id c (kids (pre_detach w c) x) = remove_id c (kids w x)).
-    { intro x. rewrite (kids_pre_detach w known c F). apply remove_id_notin. rewrite In_remove_id. intros [_ H]. congruence. }
-    split; [rewrite H1, Hrr; reflexivity|]. split; [intros x Hx; rewrite (H2 x Hx); apply Hrr|]. split; [|exact H4].
-    intro x. rewrite H3. destruct (Z.eqb_spec x c) as [E|E].
-    + rewrite with_par_getn_pre_detach. reflexivity.
-    + apply nodes_pre_detach_other. exact E.
-Qed.
-
 (* ---------- closed forms for the hooks ---------- *)
 Lemma getn_of_nodes_eq w w' x : nodes w' x = nodes w x -> getn w' x = getn w x.
 Proof. intro H. unfold getn. rewrite H. reflexivity. Qed.
@@ -2169,95 +2108,6 @@ Proof.
   intro H. destruct (mem x b) eqn:E.
   - apply mem_In. apply H. apply mem_In. exact E.
   - apply mem_false. intro Ha. apply mem_false in E. apply E. apply H. exact Ha.
-Qed.
-
-(* ---------- extend ---------- *)
-Lemma insert_closed w known ir i v :
-  Forest w known -> CacheInv w -> is_k w ir KIR = true -> is_k w v KMod = true ->
-  kids (fst (ml_insert w ir i v)) ir =
-    insert_at (clamp_insert i (length (remove_id v (kids w ir)))) v (remove_id v (kids w ir)) /\
-  (forall x, x <> ir -> kids (fst (ml_insert w ir i v)) x = remove_id v (kids w x)) /\
-  (forall x, nodes (fst (ml_insert w ir i v)) x = if x =? v then Some (with_par (getn w v) (Some ir)) else nodes w x).
-Proof.
-  intros F C G1 G2. rewrite (ml_insert_eq w known ir i v F). cbn [fst].
-  rewrite kids_attach_same, (kids_pre_detach w known v F ir).
-  split; [reflexivity|]. split.
-  - intros x Hx. rewrite kids_attach_other by exact Hx. apply (kids_pre_detach w known v F).
-  - intro x. rewrite nodes_attach. destruct (Z.eqb_spec x v) as [E|E].
-    + rewrite with_par_getn_pre_detach. reflexivity.
-    + apply nodes_pre_detach_other. exact E.
-Qed.
-
-Lemma append_closed w known ir v :
-  Forest w known -> CacheInv w -> is_k w ir KIR = true -> is_k w v KMod = true ->
-  kids (fst (ml_append w ir v)) ir = remove_id v (kids w ir) ++ [v] /\
-  (forall x, x <> ir -> kids (fst (ml_append w ir v)) x = remove_id v (kids w x)) /\
-  (forall x, nodes (fst (ml_append w ir v)) x = if x =? v then Some (with_par (getn w v) (Some ir)) else nodes w x).
-Proof.
-  intros F C G1 G2. unfold ml_append.
-  destruct (insert_closed w known ir (Z.of_nat (length (kids w ir))) v F C G1 G2) as [H1 H2].
-  split; [|exact H2]. rewrite H1. apply insert_at_ge. rewrite clamp_insert_big; [lia|].
-  apply inj_le. unfold remove_id. apply filter_length_le'.
-Qed.
-
-Lemma extend_closed known ir vs : forall w,
-  Forest w known -> CacheInv w -> is_k w ir KIR = true -> (forall v, In v vs -> is_k w v KMod = true) ->
-  kids (fst (fold_ok (fun w v => ml_append w ir v) vs w)) ir = fold_left (fun l v => remove_id v l ++ [v]) vs (kids w ir) /\
-  (forall x, x <> ir -> kids (fst (fold_ok (fun w v => ml_append w ir v) vs w)) x = fold_left (fun l v => remove_id v l) vs (kids w x)) /\
-  (forall x, nodes (fst (fold_ok (fun w v => ml_append w ir v) vs w)) x =
-             if mem x vs then Some (with_par (getn w x) (Some ir)) else nodes w x).
-Proof.
-  induction vs as [|v vs IH]; intros w F C G Gv.
-  - rewrite fold_ok_nil. cbn [fst fold_left]. split; [reflexivity|]. split; reflexivity.
-  - rewrite fold_ok_cons. cbn [fst fold_left].
-    assert (Hv : is_k w v KMod = true) by (apply Gv; left; reflexivity).
-    destruct (append_closed w known ir v F C G Hv) as [Hki1 [Hk1 Hn1]].
-    assert (Ha : ml_append w ir v = ml_insert w ir (Z.of_nat (length (kids w ir))) v) by reflexivity.
-    destruct (insert_inv w known ir (Z.of_nat (length (kids w ir))) v F C G Hv) as [F1 [C1 _]].
-    pose proof (insert_is_k w known ir (Z.of_nat (length (kids w ir))) v F C Hv) as Hik.
-    rewrite <- Ha in F1, C1, Hik.
-    destruct (IH (fst (ml_append w ir v)) F1 C1) as [Hki2 [Hk2 Hn2]].
-    + rewrite Hik. exact G.
-    + intros x Hx. rewrite Hik. apply Gv. right. exact Hx.
-    + split; [|split].
-      * rewrite Hki2, Hki1. reflexivity.
-      * intros x Hx. rewrite (Hk2 x Hx), (Hk1 x Hx). reflexivity.
-      * intro x. rewrite Hn2, mem_cons. destruct (Z.eqb_spec x v) as [E|E]; cbn [orb].
-        -- subst. rewrite (getn_of_nodes_some _ v _ (eq_trans (Hn1 v) ltac:(rewrite Z.eqb_refl; reflexivity))).
-           rewrite Hn1, Z.eqb_refl. destruct (mem v vs); reflexivity.
-        -- assert (Hnx : nodes (fst (ml_append w ir v)) x = nodes w x).
-           { rewrite Hn1. destruct (Z.eqb_spec x v); [contradiction|reflexivity]. }
-           rewrite (getn_of_nodes_eq _ _ x Hnx), Hnx. reflexivity.
-Qed.
-
-Lemma fold_append_fresh vs : forall l, NoDup vs -> (forall v, In v vs -> ~ In v l) ->
-  fold_left (fun l v => remove_id v l ++ [v]) vs l = l ++ vs.
-Proof.
-  induction vs as [|v vs IH]; intros l Hnd Hnin.
-  - cbn. rewrite app_nil_r. reflexivity.
-  - cbn [fold_left]. inversion Hnd as [|v' vs' Hv Hnd']. subst.
-    rewrite (remove_id_notin v l) by (apply Hnin; left; reflexivity).
-    rewrite IH; [rewrite <- app_assoc; reflexivity|exact Hnd'|].
-    intros x Hx Hi. apply in_app_or in Hi. destruct Hi as [Hi|[Hi|[]]].
-    + apply (Hnin x); [right; exact Hx|exact Hi].
-    + subst. contradiction.
-Qed.
-
-Theorem extend_effect w known ir vs :
-  Forest w known -> CacheInv w -> op_okb w known (OModExtend ir vs) = true ->
-  exists w', step w (OModExtend ir vs) = Ok w' /\
-    kids w' ir = fold_left (fun l v => remove_id v l ++ [v]) vs (kids w ir) /\
-    (NoDup vs -> (forall v, In v vs -> ~ In v (kids w ir)) -> kids w' ir = kids w ir ++ vs) /\
-    (forall x, x <> ir -> kids w' x = fold_left (fun l v => remove_id v l) vs (kids w x)) /\
-    (forall x, nodes w' x = if mem x vs then Some (with_par (getn w x) (Some ir)) else nodes w x).
-Proof.
-  intros F C G. cbn [op_okb] in G. apply andb_true_iff in G. destruct G as [G1 G2]. rewrite forallb_forall in G2.
-  destruct (extend_fold known ir vs w F C G1 G2) as [_ [_ Hf]].
-  destruct (extend_closed known ir vs w F C G1 G2) as [H1 [H2 H3]].
-  exists (fst (fold_ok (fun w v => ml_append w ir v) vs w)).
-  split; [rewrite step_extend; apply flagged_true; exact Hf|].
-  split; [exact H1|]. split; [|split; assumption].
-  intros Hnd Hnin. rewrite H1. apply fold_append_fresh; assumption.
 Qed.
 
 (* ---------- del slice / clear ---------- *)
@@ -2714,6 +2564,327 @@ Proof.
     split; [exact H|]. apply (step'_err _ _ EValue). exact H.
 Qed.
 
+(* ================================================================== *)
+(* insert / append / extend: insert(i, v) is l[k:k] = [v]               *)
+(* (a module that is already in the list is moved, as list.insert       *)
+(* followed by "keep only the position just assigned" puts it)          *)
+(* ================================================================== *)
+
+(* ---------- the list ---------- *)
+Lemma insert_at_split {X} (v : X) : forall n l, insert_at n v l = firstn n l ++ v :: skipn n l.
+Proof.
+  induction n as [|n IH]; intro l; [reflexivity|]. destruct l as [|y l]; [reflexivity|].
+  cbn [insert_at firstn skipn app]. f_equal. apply IH.
+Qed.
+
+Lemma remove_id_as_filter v l : filter (fun x => negb (mem x [v])) l = remove_id v l.
+Proof. unfold remove_id. apply filter_ext. intro x. rewrite mem_single. reflexivity. Qed.
+
+Lemma assign_slice_one l k v : assign_slice l k k [v] = remove_id v (firstn k l) ++ v :: remove_id v (skipn k l).
+Proof. unfold assign_slice. rewrite !remove_id_as_filter. reflexivity. Qed.
+
+Lemma In_insert_slice l k v x : In x (assign_slice l k k [v]) <-> x = v \/ In x l.
+Proof.
+  rewrite In_assign_slice. cbn [In]. split.
+  - intros [[E|[]]|[H|H]]; [left; symmetry; exact E|right; eapply In_firstn_l; exact H|right; eapply In_skipn_l; exact H].
+  - intros [E|H]; [left; left; symmetry; exact E|]. right. rewrite <- (firstn_skipn k l) in H. apply in_app_or in H. exact H.
+Qed.
+
+(* a module that is not in the list: the built-in insert (any k; beyond the end it appends) *)
+Theorem insert_list_fresh (l : list id) k v : ~ In v l -> assign_slice l k k [v] = insert_at k v l.
+Proof.
+  intro H. rewrite assign_slice_one, insert_at_split.
+  rewrite (remove_id_notin v (firstn k l)) by (intro Hi; apply H; eapply In_firstn_l; exact Hi).
+  rewrite (remove_id_notin v (skipn k l)) by (intro Hi; apply H; eapply In_skipn_l; exact Hi). reflexivity.
+Qed.
+
+(* at the end of the list: v is moved to the end (member or not) *)
+Theorem insert_list_end (l : list id) v : assign_slice l (length l) (length l) [v] = remove_id v l ++ [v].
+Proof. rewrite assign_slice_one, firstn_all, skipn_all. reflexivity. Qed.
+
+(* a module that is in the list already is moved: no duplicate, same members, the others keep their order *)
+Theorem insert_list_moved (l : list id) k v :
+  NoDup l -> In v l ->
+  NoDup (assign_slice l k k [v]) /\
+  (forall x, In x (assign_slice l k k [v]) <-> In x l) /\
+  filter (fun x => negb (x =? v)) (assign_slice l k k [v]) = filter (fun x => negb (x =? v)) l.
+Proof.
+  intros Hnd Hv. split; [apply NoDup_assign_slice; [apply le_n|exact Hnd]|]. split.
+  - intro x. rewrite In_insert_slice. split; [intros [E|H]; [subst; exact Hv|exact H]|intro H; right; exact H].
+  - change (remove_id v (assign_slice l k k [v]) = remove_id v l).
+    rewrite assign_slice_one, remove_id_app. change (v :: remove_id v (skipn k l)) with ([v] ++ remove_id v (skipn k l)).
+    rewrite remove_id_app. rewrite (remove_id_cons_same v []). cbn [remove_id filter app].
+    rewrite !(remove_id_notin v (remove_id v _)) by (rewrite In_remove_id; intros [_ A]; apply A; reflexivity).
+    rewrite <- remove_id_app, firstn_skipn. reflexivity.
+Qed.
+
+Lemma index_of_firstn v : forall l j k, index_of v l = Some j -> (In v (firstn k l) <-> (j < k)%nat).
+Proof.
+  induction l as [|y l IH]; intros j k H; [discriminate|].
+  cbn [index_of] in H. destruct k as [|k].
+  - cbn [firstn In]. split; [intros []|lia].
+  - cbn [firstn In]. destruct (Z.eqb_spec y v) as [E|E].
+    + inversion H. subst. split; [lia|]. intros _. left. reflexivity.
+    + destruct (index_of v l) as [j'|] eqn:Ej; [|discriminate]. cbn [option_map] in H. inversion H. subst.
+      rewrite (IH j' k eq_refl). split; [intros [A|A]; [contradiction|lia]|]. intro A. right. lia.
+Qed.
+
+Lemma length_remove_id_in v : forall l, NoDup l -> In v l -> S (length (remove_id v l)) = length l.
+Proof.
+  induction l as [|y l IH]; intros Hnd Hv; [destruct Hv|]. inversion Hnd as [|y' l' Hy Hl]. subst.
+  destruct (Z.eq_dec y v) as [E|E].
+  - subst. rewrite remove_id_cons_same, (remove_id_notin v l Hy). reflexivity.
+  - rewrite remove_id_cons_other by exact E. cbn [length]. f_equal. apply IH; [exact Hl|].
+    destruct Hv as [A|A]; [contradiction|exact A].
+Qed.
+
+Lemma nth_error_middle {X} (a b : list X) v : nth_error (a ++ v :: b) (length a) = Some v.
+Proof. induction a as [|y a IH]; [reflexivity|exact IH]. Qed.
+
+(* ... and where it lands: the built-in insert puts v before position k of the OLD list; the old copy, when it sat before
+   that position, then disappears from in front of it *)
+Theorem insert_list_moved_position (l : list id) k v j :
+  NoDup l -> index_of v l = Some j -> (k <= length l)%nat ->
+  nth_error (assign_slice l k k [v]) (k - (if (j <? k)%nat then 1 else 0)) = Some v.
+Proof.
+  intros Hnd Hj Hk. rewrite assign_slice_one.
+  assert (Hl : length (remove_id v (firstn k l)) = (k - (if (j <? k)%nat then 1 else 0))%nat).
+  { pose proof (index_of_firstn v l j k Hj) as Hi. pose proof (firstn_length_le l Hk) as Hfl.
+    destruct (Nat.ltb_spec j k) as [A|A].
+    - pose proof (length_remove_id_in v (firstn k l) (NoDup_firstn l k Hnd) (proj2 Hi A)) as Hs. lia.
+    - rewrite remove_id_notin; [lia|]. intro B. apply Hi in B. lia. }
+  rewrite <- Hl. apply nth_error_middle.
+Qed.
+
+(* inserting a member right where it is (before itself or just after itself) changes nothing *)
+Theorem insert_list_moved_same (l : list id) k v j :
+  NoDup l -> index_of v l = Some j -> k = j \/ k = S j -> assign_slice l k k [v] = l.
+Proof.
+  intros Hnd Hj Hk. pose proof (index_of_nth v l j Hj) as Hn.
+  destruct (nth_parts l j v Hnd Hn) as [Hp [Hs _]]. pose proof (nth_split_id l j v Hn) as El.
+  rewrite assign_slice_one. destruct Hk as [->| ->].
+  - rewrite (remove_id_notin v (firstn j l) Hp).
+    assert (Es : skipn j l = v :: skipn (S j) l).
+    { rewrite El at 1. rewrite skipn_app, skipn_firstn_comm, Nat.sub_diag. cbn [firstn skipn app].
+      rewrite firstn_length_le by (apply Nat.lt_le_incl; apply nth_error_Some; congruence).
+      rewrite Nat.sub_diag. reflexivity. }
+    rewrite Es, remove_id_cons_same, (remove_id_notin v _ Hs). symmetry. exact El.
+  - assert (Ef : firstn (S j) l = firstn j l ++ [v]).
+    { rewrite El at 1. rewrite firstn_app, firstn_firstn, Nat.min_r by lia.
+      rewrite firstn_length_le by (apply Nat.lt_le_incl; apply nth_error_Some; congruence).
+      replace (S j - j)%nat with 1%nat by lia. reflexivity. }
+    rewrite Ef, remove_id_app, (remove_id_notin v (firstn j l) Hp), (remove_id_cons_same v []).
+    cbn [remove_id filter]. rewrite app_nil_r, (remove_id_notin v _ Hs). symmetry. exact El.
+Qed.
+
+(* ---------- closed forms ---------- *)
+Lemma member_node_fixed w known ir v :
+  Forest w known -> In v (kids w ir) -> nodes w v = Some (with_par (getn w v) (Some ir)).
+Proof.
+  intros F H. apply (f_two_ended w known F) in H. destruct (f_kind w known F ir v H) as [Hh _].
+  unfold has in Hh. unfold par in H. unfold getn in *. destruct (nodes w v) as [nd|]; [|discriminate].
+  destruct nd as [a1 a2 a3 a4 a5 a6 a7 a8]. cbn in H. subst. reflexivity.
+Qed.
+
+Lemma insert_closed w known ir i v :
+  Forest w known -> CacheInv w -> is_k w ir KIR = true -> is_k w v KMod = true ->
+  kids (fst (ml_insert w ir i v)) ir =
+    assign_slice (kids w ir) (clamp_insert i (length (kids w ir))) (clamp_insert i (length (kids w ir))) [v] /\
+  (forall x, x <> ir -> kids (fst (ml_insert w ir i v)) x = remove_id v (kids w x)) /\
+  (forall x, nodes (fst (ml_insert w ir i v)) x = if x =? v then Some (with_par (getn w v) (Some ir)) else nodes w x).
+Proof.
+  intros F C G1 G2. unfold ml_insert. cbv zeta.
+  set (k := clamp_insert i (length (kids w ir))). set (new := assign_slice (kids w ir) k k [v]).
+  assert (Hnd : NoDup new) by (apply NoDup_assign_slice; [apply le_n|apply (f_nodup w known F)]).
+  assert (Gv : forall x, In x new -> ~ In x (kids w ir) -> is_k w x KMod = true) by (apply insert_values_ok; exact G2).
+  assert (Hin : forall x, In x new <-> x = v \/ In x (kids w ir)) by (intro x; apply In_insert_slice).
+  destruct (assign_closed w known ir new F C G1 Hnd Gv) as [Hk [Hko Hn]].
+  split; [exact Hk|]. split.
+  - intros x Hx. rewrite (Hko x Hx). unfold remove_id. apply filter_ext_in. intros c Hc. f_equal.
+    destruct (Z.eqb_spec c v) as [E|E].
+    + apply mem_In. apply Hin. left. exact E.
+    + apply mem_false. rewrite Hin. intros [A|A]; [contradiction|].
+      apply (not_in_other_list w known x ir c F Hc Hx). exact A.
+  - intro x. rewrite Hn. destruct (Z.eqb_spec x v) as [E|E].
+    + subst x. assert (Hm : mem v new = true) by (apply mem_In; apply Hin; left; reflexivity). rewrite Hm.
+      destruct (mem v (kids w ir)) eqn:Em; [|reflexivity]. apply mem_In in Em. apply (member_node_fixed w known ir v F Em).
+    + assert (Hm : mem x new = mem x (kids w ir)).
+      { apply mem_ext. rewrite Hin. split; [intros [A|A]; [contradiction|exact A]|intro A; right; exact A]. }
+      rewrite Hm. destruct (mem x (kids w ir)); reflexivity.
+Qed.
+
+Lemma append_closed w known ir v :
+  Forest w known -> CacheInv w -> is_k w ir KIR = true -> is_k w v KMod = true ->
+  kids (fst (ml_append w ir v)) ir = remove_id v (kids w ir) ++ [v] /\
+  (forall x, x <> ir -> kids (fst (ml_append w ir v)) x = remove_id v (kids w x)) /\
+  (forall x, nodes (fst (ml_append w ir v)) x = if x =? v then Some (with_par (getn w v) (Some ir)) else nodes w x).
+Proof.
+  intros F C G1 G2. unfold ml_append.
+  destruct (insert_closed w known ir (Z.of_nat (length (kids w ir))) v F C G1 G2) as [H1 H2].
+  split; [|exact H2]. rewrite H1. rewrite clamp_insert_big by lia. apply insert_list_end.
+Qed.
+
+Lemma extend_closed known ir vs : forall w,
+  Forest w known -> CacheInv w -> is_k w ir KIR = true -> (forall v, In v vs -> is_k w v KMod = true) ->
+  kids (fst (fold_ok (fun w v => ml_append w ir v) vs w)) ir = fold_left (fun l v => remove_id v l ++ [v]) vs (kids w ir) /\
+  (forall x, x <> ir -> kids (fst (fold_ok (fun w v => ml_append w ir v) vs w)) x = fold_left (fun l v => remove_id v l) vs (kids w x)) /\
+  (forall x, nodes (fst (fold_ok (fun w v => ml_append w ir v) vs w)) x =
+             if mem x vs then Some (with_par (getn w x) (Some ir)) else nodes w x).
+Proof.
+  induction vs as [|v vs IH]; intros w F C G Gv.
+  - rewrite fold_ok_nil. cbn [fst fold_left]. split; [reflexivity|]. split; reflexivity.
+  - rewrite fold_ok_cons. cbn [fst fold_left].
+    assert (Hv : is_k w v KMod = true) by (apply Gv; left; reflexivity).
+    destruct (append_closed w known ir v F C G Hv) as [Hki1 [Hk1 Hn1]].
+    assert (Ha : ml_append w ir v = ml_insert w ir (Z.of_nat (length (kids w ir))) v) by reflexivity.
+    destruct (insert_inv w known ir (Z.of_nat (length (kids w ir))) v F C G Hv) as [F1 [C1 _]].
+    pose proof (insert_is_k w known ir (Z.of_nat (length (kids w ir))) v F C G Hv) as Hik.
+    rewrite <- Ha in F1, C1, Hik.
+    destruct (IH (fst (ml_append w ir v)) F1 C1) as [Hki2 [Hk2 Hn2]].
+    + rewrite Hik. exact G.
+    + intros x Hx. rewrite Hik. apply Gv. right. exact Hx.
+    + split; [|split].
+      * rewrite Hki2, Hki1. reflexivity.
+      * intros x Hx. rewrite (Hk2 x Hx), (Hk1 x Hx). reflexivity.
+      * intro x. rewrite Hn2, mem_cons. destruct (Z.eqb_spec x v) as [E|E]; cbn [orb].
+        -- subst. rewrite (getn_of_nodes_some _ v _ (eq_trans (Hn1 v) ltac:(rewrite Z.eqb_refl; reflexivity))).
+           rewrite Hn1, Z.eqb_refl. destruct (mem v vs); reflexivity.
+        -- assert (Hnx : nodes (fst (ml_append w ir v)) x = nodes w x).
+           { rewrite Hn1. destruct (Z.eqb_spec x v); [contradiction|reflexivity]. }
+           rewrite (getn_of_nodes_eq _ _ x Hnx), Hnx. reflexivity.
+Qed.
+
+Lemma fold_append_fresh vs : forall l, NoDup vs -> (forall v, In v vs -> ~ In v l) ->
+  fold_left (fun l v => remove_id v l ++ [v]) vs l = l ++ vs.
+Proof.
+  induction vs as [|v vs IH]; intros l Hnd Hnin.
+  - cbn. rewrite app_nil_r. reflexivity.
+  - cbn [fold_left]. inversion Hnd as [|v' vs' Hv Hnd']. subst.
+    rewrite (remove_id_notin v l) by (apply Hnin; left; reflexivity).
+    rewrite IH; [rewrite <- app_assoc; reflexivity|exact Hnd'|].
+    intros x Hx Hi. apply in_app_or in Hi. destruct Hi as [Hi|[Hi|[]]].
+    + apply (Hnin x); [right; exact Hx|exact Hi].
+    + subst. contradiction.
+Qed.
+
+Theorem extend_effect w known ir vs :
+  Forest w known -> CacheInv w -> op_okb w known (OModExtend ir vs) = true ->
+  exists w', step w (OModExtend ir vs) = Ok w' /\
+    kids w' ir = fold_left (fun l v => remove_id v l ++ [v]) vs (kids w ir) /\
+    (NoDup vs -> (forall v, In v vs -> ~ In v (kids w ir)) -> kids w' ir = kids w ir ++ vs) /\
+    (forall x, x <> ir -> kids w' x = fold_left (fun l v => remove_id v l) vs (kids w x)) /\
+    (forall x, nodes w' x = if mem x vs then Some (with_par (getn w x) (Some ir)) else nodes w x).
+Proof.
+  intros F C G. cbn [op_okb] in G. apply andb_true_iff in G. destruct G as [G1 G2]. rewrite forallb_forall in G2.
+  destruct (extend_fold known ir vs w F C G1 G2) as [_ [_ Hf]].
+  destruct (extend_closed known ir vs w F C G1 G2) as [H1 [H2 H3]].
+  exists (fst (fold_ok (fun w v => ml_append w ir v) vs w)).
+  split; [rewrite step_extend; apply flagged_true; exact Hf|].
+  split; [exact H1|]. split; [|split; assumption].
+  intros Hnd Hnin. rewrite H1. apply fold_append_fresh; assumption.
+Qed.
+
+(* ---------- insert ---------- *)
+Theorem insert_effect w known ir i v :
+  Forest w known -> CacheInv w -> op_okb w known (OModInsert ir i v) = true ->
+  let l := kids w ir in
+  let k := clamp_insert i (length l) in
+  exists w', step w (OModInsert ir i v) = Ok w' /\
+    kids w' ir = assign_slice l k k [v] /\
+    (forall x, x <> ir -> kids w' x = remove_id v (kids w x)) /\
+    (forall x, nodes w' x = if x =? v then Some (with_par (getn w v) (Some ir)) else nodes w x) /\
+    par w' v = Some ir.
+Proof.
+  intros F C G l k. cbn [op_okb] in G. apply andb_true_iff in G. destruct G as [G1 G2].
+  destruct (insert_inv w known ir i v F C G1 G2) as [_ [_ Hf]].
+  destruct (insert_closed w known ir i v F C G1 G2) as [H1 [H2 H3]].
+  exists (fst (ml_insert w ir i v)). split; [rewrite step_insert; apply flagged_true; exact Hf|].
+  split; [exact H1|]. split; [exact H2|]. split; [exact H3|].
+  pose proof (H3 v) as Hv. rewrite Z.eqb_refl in Hv. rewrite (par_of_nodes _ _ _ Hv). reflexivity.
+Qed.
+
+(* a module that is not in the list: the built-in insert *)
+Corollary insert_effect_fresh w known ir i v :
+  Forest w known -> CacheInv w -> op_okb w known (OModInsert ir i v) = true -> ~ In v (kids w ir) ->
+  kids (step' w (OModInsert ir i v)) ir = insert_at (clamp_insert i (length (kids w ir))) v (kids w ir).
+Proof.
+  intros F C G H. destruct (insert_effect w known ir i v F C G) as [w' [Hs [Hk _]]].
+  rewrite (step'_ok _ _ _ Hs), Hk. apply insert_list_fresh. exact H.
+Qed.
+
+(* a module that is in the list already: it is moved inside the list and nothing else changes *)
+Corollary insert_effect_member w known ir i v :
+  Forest w known -> CacheInv w -> op_okb w known (OModInsert ir i v) = true -> In v (kids w ir) ->
+  let l := kids w ir in
+  let k := clamp_insert i (length l) in
+  exists w', step w (OModInsert ir i v) = Ok w' /\
+    kids w' ir = assign_slice l k k [v] /\
+    NoDup (kids w' ir) /\ (forall x, In x (kids w' ir) <-> In x l) /\
+    filter (fun x => negb (x =? v)) (kids w' ir) = filter (fun x => negb (x =? v)) l /\
+    (forall j, index_of v l = Some j -> nth_error (kids w' ir) (k - (if (j <? k)%nat then 1 else 0)) = Some v) /\
+    (forall x, x <> ir -> kids w' x = kids w x) /\
+    (forall x, nodes w' x = nodes w x).
+Proof.
+  intros F C G Hv l k. destruct (insert_effect w known ir i v F C G) as [w' [Hs [Hk [Ho [Hn _]]]]].
+  fold l in Hk. fold k in Hk.
+  destruct (insert_list_moved l k v (f_nodup w known F ir) Hv) as [M1 [M2 M3]].
+  exists w'. split; [exact Hs|]. split; [exact Hk|]. rewrite Hk.
+  split; [exact M1|]. split; [exact M2|]. split; [exact M3|]. split; [|split].
+  - intros j Hj. apply insert_list_moved_position; [apply (f_nodup w known F)|exact Hj|apply clamp_insert_le].
+  - intros x Hx. rewrite (Ho x Hx). apply remove_id_notin. apply (not_in_other_list w known ir x v F Hv). congruence.
+  - intro x. rewrite Hn. destruct (Z.eqb_spec x v) as [E|E]; [|reflexivity].
+    subst x. symmetry. apply (member_node_fixed w known ir v F Hv).
+Qed.
+
+(* ---------- append: insert at len(self); a member is moved to the end ---------- *)
+Theorem append_effect w known ir v :
+  Forest w known -> CacheInv w -> op_okb w known (OModAppend ir v) = true ->
+  exists w', step w (OModAppend ir v) = Ok w' /\
+    kids w' ir = remove_id v (kids w ir) ++ [v] /\
+    (forall x, x <> ir -> kids w' x = remove_id v (kids w x)) /\
+    (forall x, nodes w' x = if x =? v then Some (with_par (getn w v) (Some ir)) else nodes w x) /\
+    par w' v = Some ir.
+Proof.
+  intros F C G.
+  destruct (insert_effect w known ir (Z.of_nat (length (kids w ir))) v F C G) as [w' [Hs [Hk H]]].
+  exists w'. split; [exact Hs|]. split; [|exact H]. rewrite Hk.
+  rewrite clamp_insert_big by lia. apply insert_list_end.
+Qed.
+
+Corollary append_effect_fresh w known ir v :
+  Forest w known -> CacheInv w -> op_okb w known (OModAppend ir v) = true -> ~ In v (kids w ir) ->
+  kids (step' w (OModAppend ir v)) ir = kids w ir ++ [v].
+Proof.
+  intros F C G H. destruct (append_effect w known ir v F C G) as [w' [Hs [Hk _]]].
+  rewrite (step'_ok _ _ _ Hs), Hk, (remove_id_notin v _ H). reflexivity.
+Qed.
+
+(* ---------- the ir setter of a module, to an IR ---------- *)
+Theorem setparent_some_effect w known c ir :
+  Forest w known -> CacheInv w -> op_okb w known (OSetParent c (Some ir)) = true -> kindof w c = KMod ->
+  exists w', step w (OSetParent c (Some ir)) = Ok w' /\
+    kids w' ir = remove_id c (kids w ir) ++ [c] /\
+    (forall x, x <> ir -> kids w' x = remove_id c (kids w x)) /\
+    (forall x, nodes w' x = if x =? c then Some (with_par (getn w c) (Some ir)) else nodes w x) /\
+    par w' c = Some ir.
+Proof.
+  intros F C G Kc. pose proof G as G0. cbn [op_okb] in G. apply andb_true_iff in G. destruct G as [G Gp].
+  apply andb_true_iff in G. destruct G as [Hc _].
+  destruct (pre_detach_inv w known c F C Hc Kc) as [F1 [C1 [_ [_ [Hh Hk]]]]].
+  rewrite Kc in Gp. cbn [parent_kind] in Gp. apply andb_true_iff in Gp. destruct Gp as [Hq Kq]. apply kind_eqb_eq in Kq.
+  assert (G1 : op_okb (pre_detach w c) known (OModAppend ir c) = true).
+  { cbn [op_okb]. apply andb_true_iff. split; apply is_k_spec; rewrite Hh, Hk; auto. }
+  destruct (append_effect (pre_detach w c) known ir c F1 C1 G1) as [w' [Hs [H1 [H2 [H3 H4]]]]].
+  exists w'. split.
+  - rewrite (step_setparent_mod w known c (Some ir) F C Hc Kc). exact Hs.
+  - assert (Hrr : forall x, remove_id c (kids (pre_detach w c) x) = remove_id c (kids w x)).
+    { intro x. rewrite (kids_pre_detach w known c F). apply remove_id_notin. rewrite In_remove_id. intros [_ H]. congruence. }
+    split; [rewrite H1, Hrr; reflexivity|]. split; [intros x Hx; rewrite (H2 x Hx); apply Hrr|]. split; [|exact H4].
+    intro x. rewrite H3. destruct (Z.eqb_spec x c) as [E|E].
+    + rewrite with_par_getn_pre_detach. reflexivity.
+    + apply nodes_pre_detach_other. exact E.
+Qed.
+
 (* ---------- kids of non-IR nodes never change under the module-list operations ---------- *)
 Lemma fold_remove_mods_nonir w known vs x :
   Forest w known -> (forall v, In v vs -> kindof w v = KMod) -> kindof w x <> KIR ->
@@ -2792,6 +2963,12 @@ Print Assumptions reach_ir_of.
 Print Assumptions new_effect.
 Print Assumptions insert_effect.
 Print Assumptions insert_effect_fresh.
+Print Assumptions insert_effect_member.
+Print Assumptions insert_list_fresh.
+Print Assumptions insert_list_end.
+Print Assumptions insert_list_moved.
+Print Assumptions insert_list_moved_position.
+Print Assumptions insert_list_moved_same.
 Print Assumptions append_effect.
 Print Assumptions append_effect_fresh.
 Print Assumptions extend_effect.
